@@ -1049,7 +1049,7 @@ func TestEngine(t *testing.T) {
 				runUniverseCase(rng, *flagThorough, out, st, seen)
 			}
 		case "catchup":
-			st.Rule = "two real servers: a leader image (0..12 [thorough: 0..21] entries incl. configuration entries, optional snapshots and compacted prefix, MaxAppendEntries 1/2/3/64) and a follower image that shares a prefix of it and then is short, equal, or continues with 1..3 entries of its own (lower or higher terms), optionally snapshotted/compacted, gap-tolerant or monotonic stores, follower term below / equal / above the leader's (1/10); the leader's real replicateTo runs from nextIndex (last+1 in 3/5, else anywhere in 1..last+1) with every request handed to the follower's real handler; 1/5 with a failing or crashing store write on the follower during one of the first exchanges, 1/12 with a transport that refuses after 0..3 requests; non-trivial = some AppendEntries succeeded"
+			st.Rule = "two real servers: a leader image (0..12 [thorough: 0..21] entries incl. configuration entries, optional snapshots and compacted prefix, MaxAppendEntries 1/2/3/64) and a follower image that shares a prefix of it and then is short, equal, or continues with 1..3 entries of its own (lower or higher terms), optionally snapshotted/compacted, gap-tolerant or monotonic stores, follower term below / equal / above the leader's (1/10); the leader's real replicateTo runs from nextIndex (last+1 in 3/5, else anywhere in 1..last+1) with every request handed to the follower's real handler; 1/5 with a failing or crashing store write on the follower during one of the first exchanges, 1/12 with a transport that refuses after 0..3 requests; 1/3 of the cases in pipeline mode: the real pipelineReplicate (sender + decoder goroutines) against a pipeline whose sends only queue the request, driven by 1..8 operations - let the sender send once / deliver the oldest queued request to the follower and hand the answer to the decoder - so that several requests are in flight, nextIndex starting where a catch-up would have left it (1/2) or anywhere; non-trivial = some AppendEntries succeeded"
 			seen := map[string]bool{}
 			for k := 0; k < *flagN; k++ {
 				runCatchupCase(rng, *flagThorough, out, st, seen)
